@@ -19,18 +19,18 @@ CLAIMS = {
         note="Coverage is per (ADT, slot), not path-sensitive; reviewed tables: visitors.VISIT_EXEMPT_*, c07.RULES, c07.CLASSIFY. " + TB,
         ref="DESIGN.md §3 C07"),
     "C18": dict(
-        technique="static analysis: token-slot coverage proof + effect whitelist on typed THIR, MIR path rule (rustc_private driver)",
+        technique="static analysis: token-slot coverage proof + effect whitelist on typed THIR, MIR path rule (rustc_private driver); finite-domain evaluation of the anchored decision/transfer functions from their typed tree (abstract interpretation over enumerated abstract domains, sa/peval.py)",
         text="For all inputs: every AST slot that can hold a Token is reached by each of the three comment/whitespace walkers (so exactly the "
              "selected trivia kind can disappear everywhere), the walkers mutate nothing but Token trivia (code tokens cannot change), the retain "
              "predicates keep every trivia of the other kind, append_text_comment shifts lines only for location=start, and the emitted long-comment "
-             "closer is the value tested absent from the text. Regex semantics of `except` and single-line text content are not decided.",
+             "closer is the value tested absent from the text. Regex semantics of `except` and single-line text content are not decided. The generator's line/long comment classifier is evaluated on the opener grammar `--[=*[` up to level 6; the comment text builder on every subset of closers occurring in the text.",
         note="Coverage is per (ADT, slot) over the walker family; std mutators classified by name. " + TB,
         ref="DESIGN.md §3 C18"),
 }
 
 CLAIMS.update({
     "C03": dict(
-        technique="static analysis: capture/store/replay token-slot coverage (full_moon metadata vs converter calls, *Tokens fields vs initialisers, AST token slots vs generator writer calls) on typed THIR + MIR wiring rule",
+        technique="static analysis: capture/store/replay token-slot coverage (full_moon metadata vs converter calls, *Tokens fields vs initialisers, AST token slots vs generator writer calls) on typed THIR + MIR wiring rule; finite-domain evaluation of the anchored decision/transfer functions from their typed tree (abstract interpretation over enumerated abstract domains, sa/peval.py)",
         text="For all inputs: every token accessor full_moon offers for the node types the converter handles is consumed, every token field is "
              "stored from the parse tree, every token-bearing AST slot is handed to a writer of the token-based generator (nothing stored can be "
              "dropped on output), dispatch uses stored tokens, trivia/content emission order is leading-content-trailing, and retain_lines selects the "
@@ -39,14 +39,14 @@ CLAIMS.update({
         note="Coverage per (ADT, slot), not path-sensitive; full_moon accessor list from its crate metadata. " + TB,
         ref="DESIGN.md §3 C03"),
     "C04": dict(
-        technique="static analysis: token-slot coverage of shift_token_line, Position variant tables, MIR path rule for inserted lines, who-may-write rule on the generator's output/line counter",
+        technique="static analysis: token-slot coverage of shift_token_line, Position variant tables, MIR path rule for inserted lines, who-may-write rule on the generator's output/line counter; finite-domain evaluation of the anchored decision/transfer functions from their typed tree (abstract interpretation over enumerated abstract domains, sa/peval.py)",
         text="For all inputs: shift_token_line reaches every token slot; replacing token content keeps the recorded line; inserted lines are "
              "compensated exactly where they are inserted (append_text_comment only at start; bundler running total); the token-based generator's "
-             "line counter is exact and monotone and padding precedes content; no token is shifted through two routes in one traversal. Does not decide that arbitrary pipelines never emit a token whose line is already passed.",
+             "line counter is exact and monotone and padding precedes content; no token is shifted through two routes in one traversal; lines::block_total counts a block whose last token spans several lines correctly. Does not decide that arbitrary pipelines never emit a token whose line is already passed.",
         note="Unrecognised idioms for writing the output buffer fail closed. " + TB,
         ref="DESIGN.md §3 C04"),
     "C12": dict(
-        technique="static analysis: token-slot coverage of replace_referenced_tokens, MIR must-pass rule in the bundler, who-may-call Parser::parse, SCC check of the converter call graph, panic-call whitelist at the parser/worker entry points",
+        technique="static analysis: token-slot coverage of replace_referenced_tokens, MIR must-pass rule in the bundler, who-may-call Parser::parse, SCC check of the converter call graph, panic-call whitelist at the parser/worker entry points; finite-domain evaluation of the anchored decision/transfer functions from their typed tree (abstract interpretation over enumerated abstract domains, sa/peval.py)",
         text="Narrow structural part of crash-freedom, for all inputs: foreign-text token references are always replaced before a required block is "
              "walked/spliced, replace_referenced_tokens reaches every token slot, the converter's own call graph is acyclic (iterative conversion), "
              "Parser::parse is fallible and panic-free and maps both error kinds, the worker never unwraps rule/parse results. Panic-freedom of "
@@ -69,19 +69,19 @@ CLAIMS.update({
         text="For all batches: outputs are written only by the reviewed writer, after the whole rule loop and never on a rule's error edge; every "
              "non-filtered success passes the write; BufWriters are flushed with the error propagated; a failing item is stored in its own status and "
              "only fail-fast leaves the loop; batch-global mutable state is the reviewed .luaurc cache, written only under its lookup key and cleared "
-             "per pass; every iteration over a HashMap/HashSet is order-insensitive, totally sorted, or reviewed. Directory walking and path arithmetic are not decided.",
+             "per pass; every iteration over a HashMap/HashSet is order-insensitive, totally sorted, or reviewed. Directory walking and path arithmetic are not decided. The input walk follows symbolic links (no link-level metadata queries).",
         note="Top-level file filters: documented 'skipped entirely' is taken as intended (no output for filtered files). " + TB,
         ref="DESIGN.md §3 C11"),
     "C19": dict(
-        technique="static analysis: reader/writer key-set agreement per rule, serde attribute census, abstract decision table of the generic rule serializer, collision-guard and registry agreement rules on typed THIR",
+        technique="static analysis: reader/writer key-set agreement per rule, serde attribute census, abstract decision table of the generic rule serializer, collision-guard and registry agreement rules on typed THIR; finite-domain evaluation of the anchored decision/transfer functions from their typed tree (abstract interpretation over enumerated abstract domains, sa/peval.py)",
         text="For all configurations: every configure() rejects unknown keys, configuration structs deny unknown fields, duplicate keys are rejected, "
              "every accepted property key is emitted by the rule's serializer (two known-finding exceptions pinned by snapshots), the generic rule "
              "serializer emits filters exactly when non-empty and uses the bare-name form only for property-less, filter-less rules, keys writing the "
-             "same field are mutually excluded, and the name registries agree. Pattern validity and JSON5 parsing are not decided.",
+             "same field are mutually excluded, and the name registries agree. Pattern validity and JSON5 parsing are not decided. configure o serialize_to_properties is evaluated as a round trip for every rule with properties (every accepted key with candidate values of every kind).",
         note="Keys are recognised as string literals in match patterns/insert calls. " + TB,
         ref="DESIGN.md §3 C19"),
     "C20": dict(
-        technique="static analysis: decision tables of the two filter predicates extracted by abstract path enumeration (3x3 list states), MIR dominance of Rule::process by both predicates",
+        technique="static analysis: decision tables of the two filter predicates extracted by abstract path enumeration (3x3 list states), MIR dominance of Rule::process by both predicates; finite-domain evaluation of the anchored decision/transfer functions from their typed tree (abstract interpretation over enumerated abstract domains, sa/peval.py)",
         text="For all filter lists: both predicates return (apply empty or matched) and not (skip matched) in each of the 9 abstract list states and "
              "agree with each other; no rule runs without the global and its own predicate having answered true on the item's source; the skip edge is inert; "
              "all four lists deserialize through the one-or-many helpers. FilterPattern::matches is is_match on its own Glob::new glob (no partition_or_tree). Glob semantics (wax) are not decided.",
@@ -91,17 +91,19 @@ CLAIMS.update({
 
 CLAIMS.update({
     "C01": dict(
-        technique="static analysis: guard-before-act and contradiction rules on typed THIR (side-effect guard before every dropping act, multi-value guard before every hoist, tail-only accumulators), visitor reachability",
+        technique="static analysis: guard-before-act and contradiction rules on typed THIR (side-effect guard before every dropping act, multi-value guard before every hoist, tail-only accumulators), visitor reachability; finite-domain evaluation of the anchored decision/transfer functions from their typed tree (abstract interpretation over enumerated abstract domains, sa/peval.py)",
         text="For all programs, the three mechanisms the property anchors are wired at every site: each dropping/folding act of the default rules is "
              "control-dependent on has_side_effects, each operand hoisted into its parent's place is parenthesised under can_return_multiple_values "
              "(two sites pinned by existing tests are known findings), kept effectful expressions stay in order, every default rule reaches all nesting "
              "positions (C07.visit), index-removal loops run in reverse, if-expression side effects cover every part that may run. Behavioural equivalence of the rewrites is NOT decided.",
         note="has_side_effects/can_return_multiple_values/evaluate trusted as analyses (skeleton under C08). " + TB, ref="DESIGN.md §3 C01"),
     "C02": dict(
-        technique="static analysis: decision tables extracted from the precedence/associativity/parenthesis functions and should_break_with_space (pattern ranges expanded) vs independent Lua grammar/lexer tables; guard-before-act rules in the three generators; who-may table for fusion-check bypasses",
+        technique="static analysis: decision tables extracted from the precedence/associativity/parenthesis functions and should_break_with_space (pattern ranges expanded) vs independent Lua grammar/lexer tables; guard-before-act rules in the three generators; who-may table for fusion-check bypasses; finite-domain evaluation of the anchored decision/transfer functions from their typed tree (abstract interpretation over enumerated abstract domains, sa/peval.py)",
         text="For all trees: the precedence/associativity tables realise the Lua order, the needs-parentheses functions (whole body, evaluated per operand kind) return true wherever the grammar, a trailing "
              "if-expression or a `<` after a cast to a bare type name requires parentheses, all three generators wrap operands/`;` exactly under those guards, every character pair Lua's lexer would fuse is separated, "
-             "raw writes cannot fuse. Line wrapping and literal text are not decided.",
+             "raw writes cannot fuse; the dense and readable generators, evaluated on every operator pair/unary combination at two column spans, write text "
+             "that an independent reader of Lua's expression grammar reads back as the same nesting, and never break a line between a callee and its `(`. "
+             "Literal text (numbers, strings) is not decided.",
         note="One-sided relations (extra spaces/parentheses are harmless). " + TB, ref="DESIGN.md §3 C02"),
     "C05": dict(
         technique="static analysis: visitor-driver typestate from resolved generic arguments, provenance (source-call) rule on the module key, MIR push/pop pairing, error-recording rules",
@@ -109,36 +111,37 @@ CLAIMS.update({
              "applied to this call's literal and the current source (no memo), the cycle stack is popped on every exit, every failure is recorded and "
              "reported, module order is insertion order. The wrapper's run-time semantics is not decided.", note=TB, ref="DESIGN.md §3 C05"),
     "C06": dict(
-        technique="static analysis: subset relation between variant tables (duplicated-without-temporary vs constant-false has_side_effects), visitor typestate, multi-value guards, fold-direction sibling rule, conservative-unknown rule",
+        technique="static analysis: subset relation between variant tables (duplicated-without-temporary vs constant-false has_side_effects), visitor typestate, multi-value guards, fold-direction sibling rule, conservative-unknown rule; finite-domain evaluation of the anchored decision/transfer functions from their typed tree (abstract interpretation over enumerated abstract domains, sa/peval.py)",
         text="For all programs: what remove_compound_assignment duplicates is effect-free by has_side_effects' own table, scope-dependent lowering "
              "rules are scope-driven, hoists are multi-value guarded, right-nested chains are folded from the last element (branch order = evaluation "
              "order), unknown truthiness takes the boxed if-expression form, temporaries are collision-checked, values reach `%s` only through tostring, "
-             "a rule re-nesting a repeat body also handles its condition (remove_continue: known finding). Formatting semantics are not decided.", note=TB, ref="DESIGN.md §3 C06"),
+             "a rule re-nesting a repeat body also handles its condition (remove_continue: known finding), capture flags (`local __DARKLUA_X = ..`) are sticky. "
+             "Formatting semantics are not decided.", note=TB, ref="DESIGN.md §3 C06"),
     "C08": dict(
-        technique="static analysis: decision tables of the evaluator's match expressions vs the soundness skeleton of an abstract domain",
+        technique="static analysis: decision tables of the evaluator's match expressions vs the soundness skeleton of an abstract domain; finite-domain evaluation of the anchored decision/transfer functions from their typed tree (abstract interpretation over enumerated abstract domains, sa/peval.py)",
         text="For all expressions: opaque leaves evaluate to Unknown, calls are always effectful, unknown operands may carry metatables, multi-value "
              "sources are flagged, truthiness is unknown exactly for Unknown and nothing unknown is materialised; floats are never compared through total_cmp/EPSILON-style APIs "
              "nor formatted through Rust's Display; if-expression side effects ask about every part that may run. Numeric/string results are NOT decided "
              "(they need execution).", note="Only the table skeleton. " + TB, ref="DESIGN.md §3 C08"),
     "C09": dict(
-        technique="static analysis: event-order rules on both scope visitors, complete identifier-slot classification over the AST type graph, guard rules on name generation and recycling",
+        technique="static analysis: event-order rules on both scope visitors, complete identifier-slot classification over the AST type graph, guard rules on name generation and recycling; finite-domain evaluation of the anchored decision/transfer functions from their typed tree (abstract interpretation over enumerated abstract domains, sa/peval.py)",
         text="For all programs: Lua's visibility rules hold as ordering constraints between push/insert/visit/pop in both scope visitors, every "
              "identifier slot is classified and only references/declarations reach the renamer, generated names are pooled or filtered against "
-             "keywords/globals/function names collected before the walk, and only names flagged reusable are recycled. Pool/global interaction with detection off is not decided.",
+             "keywords/globals/function names collected before the walk, and only names flagged reusable are recycled. Pool/global interaction with detection off is not decided. The set of collected globals only ever grows (who-may rule); RenameProcessor's scope callbacks are evaluated as transfer functions (kept names never recycled, pool order independent of hash order).",
         note=TB, ref="DESIGN.md §3 C09"),
     "C14": dict(
-        technique="static analysis: guard-before-act rule (is_valid_identifier) at every construction of a name from a run-time string, keyword table, totality of the serializer's method set",
+        technique="static analysis: guard-before-act rule (is_valid_identifier) at every construction of a name from a run-time string, keyword table, totality of the serializer's method set; finite-domain evaluation of the anchored decision/transfer functions from their typed tree (abstract interpretation over enumerated abstract domains, sa/peval.py)",
         text="For all documents: a key is emitted as a bare name only under is_valid_identifier (which refuses the 21 reserved words, the empty string and "
              "a leading digit); every other key takes the bracketed string form; no serialize_* method drops its value; no lossy numeric cast; the long-bracket string form "
              "is gated by a byte predicate that refuses CR. Literal text otherwise (C13) is not decided.",
         note=TB, ref="DESIGN.md §3 C14"),
     "C16": dict(
-        technique="static analysis: decision table over count orderings + guard-before-act rules for the four anchored guards, subset rule for duplicated receivers, visitor typestate",
+        technique="static analysis: decision table over count orderings + guard-before-act rules for the four anchored guards, subset rule for duplicated receivers, visitor typestate; finite-domain evaluation of the anchored decision/transfer functions from their typed tree (abstract interpretation over enumerated abstract domains, sa/peval.py)",
         text="For all programs, the anchored guards hold: merging only with balanced first declaration and after scanning all values for all variables, "
              "local-function conversion only without self reference, `self` prepended exactly for methods, receivers duplicated only when effect-free and, if multi-valued, parenthesised as first argument, "
              "scope-aware sqrt conversion scope-driven. Full semantics of the refactorings are not decided.", note=TB, ref="DESIGN.md §3 C16"),
     "C17": dict(
-        technique="static analysis: visitor typestate, sibling-callback guard rule (is_identifier_used before every rewrite), matcher constant agreement, keep/order rules on kept arguments",
+        technique="static analysis: visitor typestate, sibling-callback guard rule (is_identifier_used before every rewrite), matcher constant agreement, keep/order rules on kept arguments; finite-domain evaluation of the anchored decision/transfer functions from their typed tree (abstract interpretation over enumerated abstract domains, sa/peval.py)",
         text="For all programs: every rewrite in the scope-aware removal/injection processors is guarded by the scope query (sibling callbacks agree), "
              "matchers query the scope for the very name they match, arguments are kept exactly when effectful and stay in source order. Execution "
              "equivalence with the modified environment is not decided.", note=TB, ref="DESIGN.md §3 C17"),
